@@ -29,7 +29,9 @@ EXPLANATION = (
     'errors) in any function reachable from Evolver.evolve can continue '
     'normally (no swallowed failure on the execution path); '
     'R-C07.2 also requires that no atomic() is opened with savepoint=False (inside a caller\'s transaction nothing could be rolled back); '
-    'R-C07.5 (as rewritten) under the default valuation (transactional group, no explicit new-transaction mark) no committing call is reachable in run_sql, and the explicit mark of a batch derives only from the statements\' own mark; R-C07.7 register_global_custom_migrations() is released on every exit, exceptional ones included; R-C07.8 deferred SQL of new models runs in the executor scope that created them (known finding).')
+    'R-C07.5 (as rewritten) under the default valuation (transactional group, no explicit new-transaction mark) no committing call is reachable in run_sql, and the explicit mark of a batch derives only from the statements\' own mark; R-C07.7 register_global_custom_migrations() is released on every exit, exceptional ones included; R-C07.8 deferred SQL of new models runs in the executor scope that created them (known finding).'
+    ' '
+    'R-C07.8 second clause: the models a batch creates and the evolutions it applies share one sql_executor scope; R-C07.9 no finally block of the package is left through return/break/continue (the in-flight commit/rollback error would be discarded).')
 NOT_DECIDED = (
     'Actual rollback behaviour of SQLite/Django for every failing statement '
     'index, and retry equivalence: these need execution (fault enumeration) '
@@ -725,6 +727,25 @@ def r8_deferred_sql_same_scope(ctx):
     deferred = scope_of(lambda c: call_name(c) == '_apply_deferred_sql' or (
         call_name(c) == 'run_sql' and any('deferred' in unparse(a)
                                           for a in c.args)))
+    # one batch = one scope: the models a batch creates and the evolutions it
+    # applies are committed or rolled back together
+    evolve = scope_of(lambda c: call_name(c) == 'execute' and
+                      kwarg(c, 'sql_executor') is not None and
+                      kwarg(c, 'sql') is not None)
+    if create is not None and evolve is not None:
+        if create is evolve:
+            ctx.ok(f, 'the models and the evolutions of one batch share one '
+                   'sql_executor scope', evolve)
+        else:
+            ctx.finding(f, evolve, 'within one evolutions batch the new '
+                        'models are created in one sql_executor scope and '
+                        'the evolutions are applied in another: leaving the '
+                        'first scope commits the CREATE TABLEs, so a failure '
+                        'while applying the evolutions leaves tables that '
+                        'nothing records', key='batch-split-over-scopes')
+    else:
+        ctx.counts['R-C07.8 batch steps found (create, evolve)'] = \
+            int(create is not None) + int(evolve is not None)
     if create is None or deferred is None:
         ctx.info('no separate deferred-SQL step found in execute_tasks')
         ctx.ok(f, 'model creation and its deferred SQL are not split over '
@@ -783,7 +804,66 @@ def r5b_new_transaction_flag_provenance(ctx):
     ctx.counts['R-C07.5 batches yielded with a new-transaction flag'] = n_y
 
 
+def r9_finally_does_not_swallow(ctx, rule_id='R-C07.9'):
+    """A `return`, `break` or `continue` inside a `finally:` block discards
+    the exception that is in flight when the block runs.  In
+    SQLExecutor.__exit__ that is the error of the COMMIT / ROLLBACK itself:
+    the run carries on, saves the signature and announces `evolved` although
+    nothing of the batch was committed.  Checked for every finally block of
+    the package."""
+    ctx.rule(rule_id)
+    p = ctx.program
+    n_fin = 0
+    hit = False
+    for m in p.modules.values():
+        for f in m.all_funcs():
+            for t in walk_no_nested(f.node):
+                if not (isinstance(t, ast.Try) and t.finalbody):
+                    continue
+                n_fin += 1
+
+                def jumps(stmts, in_loop):
+                    for st in stmts:
+                        if isinstance(st, ast.Return):
+                            yield st
+                        elif isinstance(st, (ast.Break, ast.Continue)) and \
+                                not in_loop:
+                            yield st
+                        elif isinstance(st, (ast.FunctionDef, ast.ClassDef,
+                                             ast.AsyncFunctionDef)):
+                            continue
+                        else:
+                            loop = in_loop or isinstance(
+                                st, (ast.For, ast.While))
+                            for blk in ('body', 'orelse', 'finalbody'):
+                                b = getattr(st, blk, None)
+                                if isinstance(b, list) and b and \
+                                        isinstance(b[0], ast.stmt):
+                                    # the else of a loop is outside the loop
+                                    for j in jumps(b, loop and blk == 'body'
+                                                   or in_loop):
+                                        yield j
+                            for h in getattr(st, 'handlers', []):
+                                for j in jumps(h.body, in_loop):
+                                    yield j
+                for j in jumps(t.finalbody, False):
+                    hit = True
+                    ctx.finding(f, j, '%s leaves a finally block with `%s`: '
+                                'an exception raised in the try body (here '
+                                'the failure of the commit/rollback the body '
+                                'performs) is silently discarded and the '
+                                'caller continues as if it had succeeded' % (
+                                    f.qualname,
+                                    ' '.join(unparse(j).split())),
+                                key='jump-in-finally')
+    ctx.floor('finally blocks in the package', n_fin, 3)
+    if not hit:
+        ctx.ok(('django_evolution', '*'), 'no finally block of the package '
+               'is left through return/break/continue')
+
+
 def run(ctx):
+    r9_finally_does_not_swallow(ctx)
     r5b_new_transaction_flag_provenance(ctx)
     r8_deferred_sql_same_scope(ctx)
     r7_global_registration_released(ctx)
